@@ -161,9 +161,18 @@ class FieldData:
       The deleted value or None, if the field was not defined.
     """
     if tagname in self.tagnames:
+      renaming_connected = self._gfa is not None and \
+          self.__class__.STORAGE_KEY == "name" and \
+          tagname == self.__class__.NAME_FIELD
+      if renaming_connected:
+        # the tag is the identifier of the line (ID of L and C lines)
+        self._gfa._unregister_line(self)
       if tagname in self._datatype:
         self._datatype.pop(tagname)
-      return self._data.pop(tagname)
+      value = self._data.pop(tagname)
+      if renaming_connected:
+        self._gfa._register_line(self)
+      return value
     else:
       return None
 
@@ -180,6 +189,11 @@ class FieldData:
         (self.__class__.STORAGE_KEY == "name" and \
         fieldname == self.__class__.NAME_FIELD):
          renaming_connected = True
+         if value is not None:
+           # the registry is keyed on the name: an invalid name is refused
+           # before the line is unregistered, at every validation level
+           gfapy.Field._validate_gfa_field(value,
+               self._field_or_default_datatype(fieldname, value), fieldname)
          if value is not None and not gfapy.is_placeholder(value):
            previous = self._gfa.line(value)
            if previous is not None and previous is not self:
